@@ -172,3 +172,16 @@ Proof. induction ops as [|o os IH]; intros s H; [exact H|]. cbn [fold_left]. app
 
 Lemma ku_init_inv : ku_inv ku_init.
 Proof. unfold ku_inv, ku_end_ok. cbn. repeat split; reflexivity. Qed.
+
+(* ---- round 4: a rejection closes the connection whether or not the alert can be written ------------------- *)
+Lemma reject_closes_even_if_alert_unsendable_l {CS} (sendable : bool) (cr cw : Cfg) (Pr Pw : Prim CS)
+      (e : Endpoint CS) (w : Wire) err :
+  unprotect cr Pr (e_rd e) w = RErr err ->
+  let e' := fst (recv_step_f sendable cr cw Pr Pw e w) in
+  e_closed e' = true /\ e_resumable e' = false /\ e_rbuf e' = e_rbuf e /\
+  (sendable = false -> e_sent e' = e_sent e).
+Proof.
+  intros Hu. unfold recv_step_f, recv_step. rewrite Hu.
+  destruct (alert_of err) as [d|]; unfold send_error, shutdown_only; destruct sendable; cbn;
+    repeat split; auto; intros; try discriminate; reflexivity.
+Qed.
